@@ -100,8 +100,15 @@ impl FileSpec {
         if p.is_dir() {
             Err(FlexiLoggerError::OutputBadFile)
         } else {
+            // a bare file name has an empty parent: the file lives in the current directory
+            let parent = p.parent().unwrap(/*cannot fail*/);
+            let directory = if parent.as_os_str().is_empty() {
+                PathBuf::from(".")
+            } else {
+                parent.to_path_buf()
+            };
             Ok(FileSpec {
-                directory: p.parent().unwrap(/*cannot fail*/).to_path_buf(),
+                directory,
                 basename: p.file_stem().unwrap(/*ok*/).to_string_lossy().to_string(),
                 o_discriminant: None,
                 o_suffix: p.extension().map(|s| s.to_string_lossy().to_string()),
